@@ -61,8 +61,8 @@ func unsetField(subject, key, sep string) string {
 	case string(subject[loc[1]-1]) == sep: // found in the middle drop trailing separator
 		return subject[:loc[0]] + subject[loc[1]-1:]
 	}
-	// found at the end drop leading separator
-	return subject[:loc[0]]
+	// found at the end (or followed by whitespace) drop leading separator and keep the rest
+	return subject[:loc[0]] + subject[loc[1]:]
 }
 
 // Set field key in the provided string.
